@@ -28,10 +28,11 @@ type vfC07Case struct {
 	Paths     []vfTopPath `json:"paths"`
 	Prior     []vfPrior   `json:"prior"`
 	Repeats   int         `json:"repeats"`   // number of times the same sources are transferred into the same destination
+	BreakWrite int        `json:"break_write,omitempty"` // k > 0: the receiver's k-th write to the sender fails (the link breaks at that protocol step)
 	Saturated int         `json:"saturated"` // >=0: index of the path whose name, name.0 .. name.999 all exist
 }
 
-func vfC07Run(cs vfC07Case, collisions *int) string {
+func vfC07Run(cs vfC07Case, collisions *int, broken *bool) string {
 	base, err := os.MkdirTemp("", "vfc07")
 	if err != nil {
 		return "mkdtemp: " + err.Error()
@@ -135,6 +136,14 @@ func vfC07Run(cs vfC07Case, collisions *int) string {
 		vfCurCase("TestVF_C07", cs)
 		r := vfNewPair(cs.Cfg)
 		r.propagate = true
+		if cs.BreakWrite > 0 && rep == maxInt(1, cs.Repeats)-1 {
+			// in the last round; the receiver is the server of an upload and the client of a download
+			if cs.Cfg.Upload {
+				r.s2c.breakAt = cs.BreakWrite
+			} else {
+				r.c2s.breakAt = cs.BreakWrite
+			}
+		}
 		r.run(paths, dest, 120*time.Second)
 		after, err := vfSnapshot(dest)
 		if err != nil {
@@ -149,6 +158,10 @@ func vfC07Run(cs vfC07Case, collisions *int) string {
 			if a.Dir != b.Dir || a.Sum != b.Sum || a.Size != b.Size || a.Mode != b.Mode || (!a.Dir && a.MT != b.MT) {
 				return fmt.Sprintf("round %d: pre-existing %q was modified: %+v -> %+v (%s)", rep, k, b, a, r.describe())
 			}
+		}
+		if cs.BreakWrite > 0 && (r.clientErr != nil || r.serverErr != nil) {
+			*broken = true
+			return "" // the transfer failed where the link broke; what had existed is untouched (checked above), what is new may stay
 		}
 		saturated := cs.Saturated >= 0 && cs.Saturated < len(names)
 		if saturated {
@@ -256,6 +269,10 @@ func vfGenC07(rt *rapid.T) vfC07Case {
 		}
 	}
 	cs.Prior = append(cs.Prior, vfPrior{Name: "bystander.txt", Size: 100}, vfPrior{Name: "bystander.d", IsDir: true, Child: true})
+	if rapid.IntRange(0, 3).Draw(rt, "breaks") == 0 {
+		// the receiver's link to the sender breaks at one of its first protocol steps (the NUM, NAME, SIZE ... acknowledgements)
+		cs.BreakWrite = rapid.IntRange(1, 8).Draw(rt, "breakwrite")
+	}
 	if rapid.IntRange(0, 24).Draw(rt, "saturated") == 0 {
 		cs.Saturated = rapid.IntRange(0, np-1).Draw(rt, "satidx")
 		cs.Repeats = 1
@@ -267,8 +284,12 @@ func TestVF_C07(t *testing.T) {
 	c := vfNewCollector("C07", "TestVF_C07")
 	vfCheck(t, c, vfGenC07, func(cs vfC07Case) string {
 		coll := 0
-		msg := vfC07Run(cs, &coll)
+		broken := false
+		msg := vfC07Run(cs, &coll, &broken)
 		labels := vfPairLabels(cs.Cfg)
+		if broken {
+			labels = append(labels, fmt.Sprintf("link_broke_at_receiver_write_%d", cs.BreakWrite))
+		}
 		labels = append(labels, fmt.Sprintf("repeats_%d", cs.Repeats))
 		if cs.Saturated >= 0 {
 			labels = append(labels, "saturated_series")
